@@ -3,7 +3,7 @@
    (GeophiresXResult of geophires_x_client/geophires_x_result.py); set.pop() is modelled as an arbitrary
    choice [k] among the distinct matching lines. *)
 From Coq Require Import String Ascii List ZArith QArith Qabs Bool PeanoNat.
-From Verif Require Import Base.Flat Model.ResultParser Model.ResultParserFast Proofs.ResultParserProofs Proofs.ResultParserProofs2
+From Verif Require Import Base.Flat Model.ResultParser Model.ResultParserFast Model.ResultHistory Proofs.ResultHistoryProofs Proofs.ResultParserProofs Proofs.ResultParserProofs2
      Proofs.ResultParserFastProofs Proofs.ResultParserTableProofs
      Gen.C10Fields Gen.C10Labels.
 Import ListNotations.
@@ -295,6 +295,30 @@ Theorem C10_indexed_check_sound :
 Proof. exact check_report_fast_same. Qed.
 Print Assumptions C10_indexed_check_sound.
 
+(* ---- histories in one client process: report files are re-written and parsed again -------------------------
+   The modelled GeophiresXResult is a function of the file's text: for EVERY history of Write / Parse operations
+   over any number of paths, the answer to a Parse is the parse of the text the path holds at that moment, and two
+   histories with the same writes (whatever was parsed before, however often) give the same answer. *)
+Theorem C10_parse_after_history :
+  forall (R : Type) (parse : string -> R) ops s p,
+  nth_error (run parse s (ops ++ [Parse p])) (parses ops) = Some (option_map parse (lookup p (files_after s ops))).
+Proof. exact parse_after_history. Qed.
+Print Assumptions C10_parse_after_history.
+
+Theorem C10_parse_is_function_of_text :
+  forall (R : Type) (parse : string -> R) ops1 ops2 s p,
+  filter is_write ops1 = filter is_write ops2 ->
+  nth_error (run parse s (ops1 ++ [Parse p])) (parses ops1)
+  = nth_error (run parse s (ops2 ++ [Parse p])) (parses ops2).
+Proof. exact parse_is_function_of_text. Qed.
+Print Assumptions C10_parse_is_function_of_text.
+
+Theorem C10_rewritten_file_is_reparsed :
+  forall (R : Type) (parse : string -> R) s p a b,
+  run parse s [Write p a; Parse p; Write p b; Parse p] = [Some (parse a); Some (parse b)].
+Proof. exact rewritten_file_is_reparsed. Qed.
+Print Assumptions C10_rewritten_file_is_reparsed.
+
 (* ---- non-vacuity: concrete instances satisfying the hypotheses ---------------------------------------------- *)
 Example C10_ex_roundtrip :
   field_of_line "Well depth" false (render_scalar 6 "Well depth" 1 "-12,345,678.9" (Some "kilometer") NL)
@@ -399,3 +423,8 @@ Proof. split; [apply solid_join; [reflexivity | reflexivity | discriminate] | vm
 
 Example C10_ex_readlines : readlines (join_nl ["a b"; ""; "c"]) = ["a b" ++ NL; NL; "c" ++ NL].
 Proof. vm_compute. reflexivity. Qed.
+
+Example C10_ex_history :   (* the revenue table of the model after a re-write is the table of the new text *)
+  forall a b, run revenue_table [] [Write "P" a; Parse "P"; Parse "P"; Write "P" b; Parse "P"]
+              = [Some (revenue_table a); Some (revenue_table a); Some (revenue_table b)].
+Proof. intros. reflexivity. Qed.
